@@ -78,7 +78,7 @@ def config_st(draw, rank, dims, nt):
                                          draw(st.integers(0, 1))]}
     if k < 90:
         return {"kind": "ext", "offset": draw(st.integers(0, 40))}
-    return {"kind": "unlimited", "blocksize": draw(st.sampled_from([None, 16, 100, 4096]))}
+    return {"kind": "unlimited", "blocksize": draw(st.sampled_from([None, 1, 3, 16, 100, 4096]))}
 
 
 @st.composite
